@@ -1067,7 +1067,7 @@ impl ASN1Value {
                         // }
                         // ```
                         // Cases like these need to be explicitly cast in the rust bindings.
-                        *self = val.clone().value;
+                        *self = Self::notation_of_referenced_value(val, tlds)?;
                         self.link_with_type(
                             tlds,
                             &ASN1Type::ElsewhereDeclaredType(e.clone()),
@@ -1528,6 +1528,7 @@ impl ASN1Value {
                             parent: None,
                             identifier: next,
                         },
+                    associated_type,
                     ..
                 })) = referenced
                 {
@@ -1536,6 +1537,24 @@ impl ASN1Value {
                     let Some(next_value @ ToplevelDefinition::Value(_)) = tlds.get(next) else {
                         break;
                     };
+                    // X.680 19.10: so is an identifier of the governing type that a value
+                    // happens to share its name with
+                    let own_item = match associated_type {
+                        ASN1Type::ElsewhereDeclaredType(e) => tlds
+                            .get(&e.identifier)
+                            .and_then(|t| {
+                                t.get_distinguished_or_enum_value(Some(&e.identifier), next)
+                            })
+                            .is_some(),
+                        ASN1Type::Integer(i) => i
+                            .distinguished_values
+                            .as_ref()
+                            .is_some_and(|dv| dv.iter().any(|d| &d.name == next)),
+                        _ => false,
+                    };
+                    if own_item {
+                        break;
+                    }
                     if hops > tlds.len() {
                         return Err(grammar_error!(
                             LinkerError,
@@ -1547,20 +1566,7 @@ impl ASN1Value {
                     referenced = Some(next_value);
                 }
                 if let Some(ToplevelDefinition::Value(tld)) = referenced {
-                    *self = tld.value.clone();
-                    // the referenced value may be given by a named number of its own type
-                    if matches!(self, ASN1Value::ElsewhereDeclaredValue { .. }) {
-                        let mut referenced = tld.clone();
-                        referenced.collect_supertypes(tlds)?;
-                        *self = match referenced.value {
-                            ASN1Value::LinkedNestedValue { value, .. } => match *value {
-                                ASN1Value::LinkedIntValue { value, .. } => ASN1Value::Integer(value),
-                                _ => tld.value.clone(),
-                            },
-                            ASN1Value::LinkedIntValue { value, .. } => ASN1Value::Integer(value),
-                            _ => tld.value.clone(),
-                        };
-                    }
+                    *self = Self::notation_of_referenced_value(tld, tlds)?;
                     self.link_with_type(tlds, ty, type_name)?;
                 }
                 Ok(())
@@ -1568,6 +1574,28 @@ impl ASN1Value {
             (_, ASN1Value::ElsewhereDeclaredValue { .. }) => Err(GrammarError::todo()),
             _ => Ok(()),
         }
+    }
+
+    /// The value notation of a referenced value, to be linked with the type of the referencing
+    /// value. An identifier in it may be a named number of the referenced value's own type
+    /// (X.680 19.10), which the referencing value's type does not know: it is resolved first.
+    fn notation_of_referenced_value(
+        referenced: &ToplevelValueDefinition,
+        tlds: &BTreeMap<String, ToplevelDefinition>,
+    ) -> Result<ASN1Value, GrammarError> {
+        if !matches!(referenced.value, ASN1Value::ElsewhereDeclaredValue { .. }) {
+            return Ok(referenced.value.clone());
+        }
+        let mut linked = referenced.clone();
+        linked.collect_supertypes(tlds)?;
+        Ok(match linked.value {
+            ASN1Value::LinkedNestedValue { value, .. } => match *value {
+                ASN1Value::LinkedIntValue { value, .. } => ASN1Value::Integer(value),
+                _ => referenced.value.clone(),
+            },
+            ASN1Value::LinkedIntValue { value, .. } => ASN1Value::Integer(value),
+            _ => referenced.value.clone(),
+        })
     }
 
     fn link_enum_or_distinguished(
@@ -2040,6 +2068,16 @@ impl ASN1Value {
                 enumerable: e,
             } => {
                 if let Some(v) = find_tld_or_enum_value_by_name(identifier, e, tlds) {
+                    // the notation of a referenced value is read with the governing type of
+                    // that value: an identifier in it may be one of that type's named numbers
+                    let governor_of = |value_name: &String| match tlds.get(value_name) {
+                        Some(ToplevelDefinition::Value(ToplevelValueDefinition {
+                            associated_type: ASN1Type::ElsewhereDeclaredType(t),
+                            ..
+                        })) => Some(t.identifier.clone()),
+                        _ => None,
+                    };
+                    let mut governor = governor_of(e).unwrap_or_else(|| identifier.clone());
                     *self = v;
                     // the referenced value can itself be a reference to another value
                     let mut hops = 0;
@@ -2049,9 +2087,13 @@ impl ASN1Value {
                         ..
                     } = self
                     {
-                        match find_tld_or_enum_value_by_name(identifier, next, tlds) {
+                        let next = next.clone();
+                        match find_tld_or_enum_value_by_name(&governor, &next, tlds) {
                             Some(v) if hops < tlds.len() => {
                                 *self = v;
+                                if let Some(g) = governor_of(&next) {
+                                    governor = g;
+                                }
                                 hops += 1;
                             }
                             _ => break,
